@@ -52,6 +52,8 @@ type FuncContract struct {
 	Keeps    []string          // free ghosts this function leaves unchanged (checked; callers keep them across the call)
 	OnSpawn  []*GhostSet       // ghost updates that take effect at a `go f(...)` statement naming this function
 	LockAssumes []*Clause      // assumed right after each lock acquisition in this function (listed as assumptions)
+	Chans    []string // `chans a, b`: the only channels this function sends / receives / closes on (checked; callers keep every other channel's ghosts)
+	HasChans bool
 	NoChan   bool // promises (and is checked) not to send/receive on any channel; otherwise callers lose all channel counters
 	Trusted  bool // contract assumed, body not verified
 	MayPanic bool
@@ -127,7 +129,7 @@ var topKeywords = map[string]bool{"func": true, "extern": true, "pred": true, "g
 	"lemma": true, "axiom": true, "benign": true, "fn": true, "immutable": true, "constructors": true, "ghostgroup": true, "chaninv": true, "modset": true}
 var clauseKeywords = map[string]bool{"props": true, "arith": true, "requires": true, "ensures": true,
 	"modifies": true, "loop": true, "invariant": true, "decreases": true, "unroll": true, "trusted": true,
-	"maypanic": true, "guarantee": true, "guards": true, "ghostparam": true, "inst": true, "onreturn": true, "onspawn": true, "lockassume": true, "assume": true, "nochan": true, "keeps": true, "exit": true}
+	"maypanic": true, "guarantee": true, "guards": true, "ghostparam": true, "inst": true, "onreturn": true, "onspawn": true, "lockassume": true, "assume": true, "nochan": true, "keeps": true, "exit": true, "chans": true}
 
 type logicalLine struct {
 	kw   string
@@ -640,6 +642,16 @@ func (cs *Contracts) loadFile(path, pkgPath string) error {
 			for _, m := range splitTopLevel(l.rest, ',') {
 				if m = strings.TrimSpace(m); m != "" {
 					curFunc.Keeps = append(curFunc.Keeps, m)
+				}
+			}
+		case "chans":
+			if curFunc == nil {
+				return fmt.Errorf("%s:%d: chans outside func", path, l.line)
+			}
+			curFunc.HasChans = true
+			for _, m := range splitTopLevel(l.rest, ',') {
+				if m = strings.TrimSpace(m); m != "" {
+					curFunc.Chans = append(curFunc.Chans, m)
 				}
 			}
 		case "modifies":
